@@ -11,6 +11,11 @@ def get_column(input_, pos):
     return pos - input_.rfind('\n', 0, pos)
 
 
+def _as_unsigned_32(value):
+    """ Enumerators and discriminators are unsigned 32-bit on the wire: negative ones wrap, as in isar and sack. """
+    return value if value >= 0 else (1 << 32) + value
+
+
 class Parser(object):
     literals = ['+', '-', '*', '/', '(', ')', '#']
 
@@ -248,7 +253,7 @@ class Parser(object):
             "enumerator '{}' value '{}' out of 32 bits".format(t[1], t[3]),
             t.lineno(3), t.lexpos(3)
         )
-        member = model.EnumMember(t[1], str(t[3]))
+        member = model.EnumMember(t[1], str(_as_unsigned_32(t[3])))
         self.constdecls[t[1]] = member
         t[0] = member
 
@@ -376,7 +381,8 @@ class Parser(object):
             "discriminator '{}' of '{}' out of 32 bits".format(t[1], t[4]),
             t.lineno(4), t.lexpos(4)
         )
-        t[0] = (model.UnionMember(t[4], t[3][0], str(t[1]), definition=t[3][1]), t.lineno(4), t.lexpos(4))
+        t[0] = (model.UnionMember(t[4], t[3][0], str(_as_unsigned_32(t[1])), definition=t[3][1]),
+                t.lineno(4), t.lexpos(4))
 
     def p_type_spec_1(self, t):
         '''type_spec : U8
